@@ -356,10 +356,12 @@ func (x *Exec) callByContract(st *State, fr *Frame, callee *ssa.Function, fc *Fu
 		}
 	}
 	// ... and assertions about calls made by a contract-less helper inlined into it: `at helper.callee#n`
-	if x.fc != nil && fr.Fn != x.fn && len(st.frames) == 2 && st.frames[0].Fn == x.fn {
+	// (the helper may itself have been reached through further contract-less helpers; the form with the
+	// ordinal of the helper call, `helper#k.callee#n`, needs the helper to be called by the function itself)
+	if x.fc != nil && fr.Fn != x.fn && len(st.frames) >= 2 && st.frames[0].Fn == x.fn {
 		via := shortCallee(x.P.FuncName(fr.Fn))
 		specific := ""
-		if ci := fr.CallInst; ci != nil {
+		if ci := fr.CallInst; ci != nil && len(st.frames) == 2 {
 			specific = fmt.Sprintf("%s#%d.%s#%d", via, x.siteOrdinal(st.frames[0].Fn, ci, via), short, ord)
 		}
 		for _, a := range x.fc.Asserts {
